@@ -14,6 +14,6 @@ CONSTANTS
   Fix = {"repin_sole"}
   Mut = {}
   Loop = {}
-INVARIANTS TypeOK C13 Once Conserved EpochBound AbsEpochBound AbsFrozenPinned
+INVARIANTS TypeOK C13 Once Conserved EpochBound AbsEpochBound AbsFrozenPinned C16 GuardsCounted
 PROPERTIES Mono RefinesAbs
 CHECK_DEADLOCK FALSE
